@@ -37,7 +37,10 @@ RULE = ("sequential: seeded histories (0-45 ops) of Post / Register (local or re
         "store of the counter while thread 1 posts, or a post + clean_shutdown placed right after an Empty get "
         "of the loop; registration race (1 case in 110, known finding): the late destination registers from "
         "another thread while the first post to it is between its unknown-destination test and the deferral, or "
-        "the sender's next post runs between the table write and the replay; non-trivial = at least 3 messages handled or a deferred message replayed; distinct = "
+        "the sender's next post runs between the table write and the replay; add-while-running (1 case in 110): "
+        "1-5 kept messages, then Agent.add_computation from the main thread on a running agent while a second "
+        "discovery listener keeps register_computation busy until the agent thread has dispatched the re-queued "
+        "messages; non-trivial = at least 3 messages handled or a deferred message replayed; distinct = "
         "distinct case JSON")
 MODELLED = ("Messaging.post_msg/next_msg/shutdown/_on_computation_registration, the discovery table and "
             "one-shot callbacks, the agent loop's dispatch and drain are modelled sequentially "
@@ -186,6 +189,9 @@ def gen(rng, n, tier):
     for i in range(n):
         if i % 110 == 27:
             cases.append(_gen_reg(rng))      # known finding C18-registration-races-with-deferring-post
+            continue
+        if i % 110 == 60:
+            cases.append(dict(kind="addrun", n=rng.randint(1, 5), ty=rng.choice([None, 10])))
             continue
         cases.append(_gen_thr(rng) if i % 11 == 10 else _gen_mt(rng) if i % 11 == 5 else _gen_seq(rng))
     return cases
@@ -715,6 +721,55 @@ def _run_reg(case):
                 left=ms._queue.qsize())
 
 
+def _run_addrun(case):
+    """Kept messages and Agent.add_computation from another thread on a RUNNING agent: a second,
+    application-level discovery listener of the same computation (subscribed after the posts, so it
+    is called after Messaging's callbacks re-queued the kept messages) returns only when the agent
+    thread has dispatched them or has died -- add_computation is still inside register_computation
+    meanwhile."""
+    from pydcop.infrastructure.computations import Message
+    from time import monotonic, sleep as _sleep
+    a, b, Rec, trace = _setup(senders=False)
+    ms = a._messaging
+    n, ty = case["n"], case["ty"]
+    a.start()
+    end = monotonic() + 10
+    while not a.is_running and monotonic() < end:
+        _sleep(0.005)
+    for k in range(1, n + 1):
+        ms.post_msg(_name(41), _name(10), Message("m", k), ty)
+    kept = len(ms._failed)
+
+    def listener(evt, computation, agent):
+        stop = monotonic() + 10
+        while len(trace[A]) < n and a.is_running and monotonic() < stop:
+            _sleep(0.005)
+    a.discovery.subscribe_computation(_name(10), listener)
+    comp = Rec(_name(10), A)
+    comp.start()
+    a.add_computation(comp, publish=False)          # main thread, agent thread running
+    alive = a.is_running
+    ms.post_msg(_name(41), _name(10), Message("m", n + 1), ty)
+    a.clean_shutdown()
+    a.join()
+    return dict(handled=trace[A], kept=kept, alive=alive, deferred=[m.content for _, _, m, _, _ in ms._failed],
+                left=ms._queue.qsize())
+
+
+def _oracle_addrun(case, o):
+    n = case["n"]
+    want = [[41, 10, k] for k in range(1, n + 2)]
+    if o["kept"] != n:
+        return "late registration: %d of %d posts to the unregistered c10 were kept" % (o["kept"], n)
+    if not o["alive"]:
+        return ("late registration: the agent thread died while c10 was added from another thread "
+                "(handled %r of the %d kept messages)" % (o["handled"], n))
+    if o["handled"] != want or o["deferred"] or o["left"]:
+        return "late registration: handled %r, posted %r (deferred %r, %d left queued)" % (
+            o["handled"], want, o["deferred"], o["left"])
+    return None
+
+
 def _oracle_reg(case, o):
     want = [[41, 10, k + 1] for k in range(case["n"])]
     if o["registered"] == "a1" and o["deferred"]:
@@ -730,6 +785,8 @@ def _oracle_reg(case, o):
 
 
 def run_impl(case):
+    if case["kind"] == "addrun":
+        return _run_addrun(case)
     if case["kind"] == "reg":
         return _run_reg(case)
     if case["kind"] == "mt":
@@ -959,6 +1016,8 @@ def _oracle_mt(case, o):
 
 
 def oracle(case, o):
+    if case["kind"] == "addrun":
+        return _oracle_addrun(case, o)
     if case["kind"] == "reg":
         return _oracle_reg(case, o)
     if case["kind"] == "mt":
@@ -997,6 +1056,12 @@ _OUT = {"dropped": "ODropped", "deferred": "ODeferred", "queued": "OQueued", "se
 
 
 def coq_case(case, o):
+    if case["kind"] == "addrun":
+        # sequential in the registration model: n complete deferrals, the whole registration, one direct post
+        n = case["n"]
+        sched = ["RCPost 0%nat"] * (3 * n) + ["RCReg"] * (4 * n + 10) + ["RCPost 0%nat"] * 2
+        return "CReg (mkRC %s %s %s %s)" % (q.lst([q.zlist(range(1, n + 2))]), q.lst(sched), q.zlist(o["deferred"]),
+                                            q.zlist([m for _, _, m in o["handled"]]))
     if case["kind"] == "reg":
         return _coq_reg(case, o)
     if case["kind"] == "mt":
@@ -1087,6 +1152,8 @@ def _coq_reg(case, o):
 
 
 def nontrivial(case, o):
+    if case["kind"] == "addrun":
+        return True
     if case["kind"] == "reg":
         return True
     if case["kind"] == "mt":
@@ -1099,13 +1166,13 @@ def nontrivial(case, o):
 def histogram(cases, obs):
     h = {"seq": 0, "thr": 0, "deferred": 0, "replayed_local": 0, "sent_remote": 0, "raised": 0,
          "shutdown": 0, "dropped": 0, "handled>=5": 0, "thr_gets_interleaved": 0,
-         "reg": 0, "mt": 0, "mt_forced_counter": 0, "mt_forced_shutdown": 0, "mt_early_shutdown": 0, "mt_posts_dropped": 0,
+         "reg": 0, "addrun": 0, "mt": 0, "mt_forced_counter": 0, "mt_forced_shutdown": 0, "mt_early_shutdown": 0, "mt_posts_dropped": 0,
          "mt_left_in_queue": 0, "mt_switch_inside_post": 0, "mt_lock_contended": 0}
     for c, o in zip(cases, obs):
         if not isinstance(o, dict) or "__driver_error__" in o:
             continue
         h[c["kind"]] += 1
-        if c["kind"] == "reg":
+        if c["kind"] in ("reg", "addrun"):
             continue
         if c["kind"] == "mt":
             h["mt_forced_counter"] += c["force"] == "counter"
@@ -1151,7 +1218,10 @@ def histogram(cases, obs):
 
 
 def shrink_candidates(case):
-    if case["kind"] == "reg":
+    if case["kind"] == "addrun":
+        if case["n"] > 1:
+            yield dict(case, n=case["n"] - 1)
+    elif case["kind"] == "reg":
         if case["n"] > 1:
             yield dict(case, n=case["n"] - 1)
     elif case["kind"] == "seq":
